@@ -220,3 +220,37 @@ theorem pollBlock_xhgood (pn) : ∀ f, XHGood pn f
   | f + 1 => xhgood_succ pn f (pollBlock_xhgood pn f)
 
 end M.Rt
+
+namespace M.Rt
+
+/-- a host-free legacy task (what a legacy task's own `spawn` may add to the executor's spawn queue) -/
+def legacyHF : ExecTask → Bool
+  | .cmd _ => false
+  | .legacy b => hostFreeB b
+
+theorem legacyHF_legacy (b : Block) : legacyHF (.legacy b) = hostFreeB b := rfl
+
+def XL (w w' : World) : Prop := ∀ t, t ∈ w'.execSpawn → t ∈ w.execSpawn ∨ legacyHF t = true
+
+def XLGood (pn : Waker → Nat → World → Option (NextRes × World)) (f : Nat) : Prop :=
+  ∀ wk b w r w', pollBlock pn f wk .core b w = some (r, w') → hostFreeB b = true → XL w w'
+
+theorem xlgood_succ (pn) (f : Nat) (ih : XLGood pn f) : XLGood pn (f + 1) := by
+  intro wk b w r w' h hf
+  obtain ⟨env, cur, rest⟩ := b
+  have hres := fun wk b w r w' h hf => (pollBlock_lgood pn f wk .core b w r w' h hf).2
+  unfold pollBlock at h
+  simp only at h
+  unfold XLGood at ih
+  unfold XL at ih ⊢
+  intro t ht
+  grind [mem_es_spawn, es_modLeaf, es_modMeta, es_newLeaf, es_sinkEffect, es_sinkEvent, es_dropReceiver, es_wake, es_abortCmd,
+    es_dropBlock, legacyHF_legacy, hfB_eq, hfP_idle, hfP_reqDead, hfP_req, hfP_await, hfP_selfwake, hfP_streamWait,
+    hfP_streamBody, hfP_join, hfP_select, hfP_host, hfIs_nil, hfIs_cons, hfI_host, hfI_stream, hfI_spawn, hfI_handoff,
+    hfI_join, hfI_select, hfRes_pending]
+
+theorem pollBlock_xlgood (pn) : ∀ f, XLGood pn f
+  | 0 => by intro wk b w r w' h; simp [pollBlock] at h
+  | f + 1 => xlgood_succ pn f (pollBlock_xlgood pn f)
+
+end M.Rt
